@@ -294,6 +294,9 @@ def c10() -> int:
     from .enum_member import c10_enum
 
     c10_enum(c)
+    from .enum_fleetfile import c10_files
+
+    c10_files(c)
     results = pmap(_c10_config, rotate(configs, seed()))
     cov = Counter()
     for r in results:
